@@ -789,6 +789,7 @@ class Flattener:
             new.body = self._flatten_body(fn, new.body, _all_names(node))
             self._fuse_late(fn, new)
             _scalarize_results(new)
+            _forward_single_results(new)
             _scalarize_records(self.m, fn, new)
             ast.fix_missing_locations(new)
         finally:
@@ -859,6 +860,38 @@ def _scalarize_records(model, fn, fnode):
         for u in uses:
             at = parent[id(u)]
             _replace(fnode, at, _clone(byfield[at.attr]))
+
+
+def _forward_single_results(fnode):
+    """`inl_ret = E` (the only store) ... `x = inl_ret` (the only read)  ->  `x = E` at the store site: the result
+    variable of an inlined helper with one exit is the caller's variable."""
+    stores, loads = {}, {}
+    parent = {}
+    for p in ast.walk(fnode):
+        for c in ast.iter_child_nodes(p):
+            parent[id(c)] = p
+    for n in ast.walk(fnode):
+        if isinstance(n, ast.Name) and n.id.startswith("inl_ret__i"):
+            (stores if isinstance(n.ctx, ast.Store) else loads).setdefault(n.id, []).append(n)
+    for name, st_nodes in stores.items():
+        ld = loads.get(name, [])
+        if len(st_nodes) != 1 or len(ld) != 1:
+            continue
+        sp, lp = parent.get(id(st_nodes[0])), parent.get(id(ld[0]))
+        if not (isinstance(sp, ast.Assign) and len(sp.targets) == 1 and sp.targets[0] is st_nodes[0]):
+            continue
+        if not (isinstance(lp, ast.Assign) and lp.value is ld[0] and len(lp.targets) == 1 and isinstance(lp.targets[0], ast.Name)):
+            continue
+        # same statement list, the copy right after the store
+        holder = parent.get(id(sp))
+        if holder is None or holder is not parent.get(id(lp)):
+            continue
+        for fld in ("body", "orelse", "finalbody"):
+            lst = getattr(holder, fld, None)
+            if isinstance(lst, list) and sp in lst and lp in lst and lst.index(lp) == lst.index(sp) + 1:
+                sp.targets = [ast.copy_location(ast.Name(id=lp.targets[0].id, ctx=ast.Store()), sp)]
+                lst.remove(lp)
+                break
 
 
 def _scalarize_results(fnode):
